@@ -376,7 +376,7 @@ class BuiltinMixin:
         if isinstance(v, VRef):
             h = st.deref(v)
             if isinstance(h, HList):
-                return [(st, VInt(z3.IntVal(len(h.items)) if h.items is not None else z3.Length(h.seq)))]
+                return [(st, VInt(z3.IntVal(len(h.items)) if h.items is not None else z3.Length(h.seq) + len(h.tail)))]
             if isinstance(h, HDict):
                 if h.present is None:
                     return [(st, VInt(z3.IntVal(len(h.items))))]
@@ -677,11 +677,18 @@ class BuiltinMixin:
             return [(st, VInt(acc))]
         maps = st.ghost.get("__maps__", {})
         if isinstance(gen, VRef) and isinstance(st.deref(gen), HList) and st.deref(gen).seq is not None:
-            seq = st.deref(gen).seq
+            g = st.deref(gen)
+            seq = g.seq
             if z3.is_app(seq) and seq.decl().name() in maps:
                 elt, src = maps[seq.decl().name()]
                 if elt.endswith(".length"):
-                    return [(st, VInt(it * prodlen(src)))]
+                    acc = it * prodlen(src)
+                    for x in g.tail:
+                        t = self.num_term(x)
+                        if t is None:
+                            raise Unsupported("reduce(mul) over non-int element")
+                        acc = acc * t
+                    return [(st, VInt(acc))]
         raise Unsupported("reduce over this iterable")
 
     def b_sum(self, st, args, kwargs):
@@ -696,7 +703,7 @@ class BuiltinMixin:
                 acc = acc + t
             return [(st, VInt(acc))]
         if isinstance(gen, VRef) and isinstance(st.deref(gen), HList) and st.deref(gen).seq is not None:
-            seq = st.deref(gen).seq
+            seq = self.list_seq(st, gen)
             f = z3.Function("sum_ints", SeqU, I)
             return [(st, VInt(f(seq)))]
         raise Unsupported("sum over this iterable")
@@ -817,7 +824,7 @@ class BuiltinMixin:
         if h.items is not None:
             h.items.append(args[0])
         else:
-            h.seq = z3.Concat(h.seq, z3.Unit(box(args[0])))
+            h.tail.append(args[0])
         return [(st, NONE)]
 
     def m_HList_pop(self, st, ref, args, kwargs):
@@ -829,6 +836,8 @@ class BuiltinMixin:
             if not h.items:
                 return [self.raised(st, "IndexError", "pop from empty list")]
             return [(st, h.items.pop())]
+        if h.tail:
+            return [(st, h.tail.pop())]
         out = []
         for s, nonempty in self.branch(st, z3.Length(h.seq) > 0):
             hh = s.deref(ref)
@@ -853,6 +862,7 @@ class BuiltinMixin:
             raise Unsupported("list.extend with unknown iterable")
         h.seq = z3.Concat(self.list_seq(st, ref), seq)
         h.items = None
+        h.tail = []
         return [(st, NONE)]
 
     def m_HList_count(self, st, ref, args, kwargs):
